@@ -460,6 +460,10 @@ class List(list, base.Symbolic, pg_typing.CustomTyping):
       if old_value is value:
         return None
 
+    if should_insert and index < 0:
+      # Address the inserted item by its real position (`list.insert` clamps a
+      # negative index), so the reported update does not carry a negative one.
+      index = max(0, index + len(self))
     # NOTE: an insertion / append is refused before the value is adopted as a
     # child (`_formalized_value` sets its parent).
     if index < len(self):
@@ -695,6 +699,9 @@ class List(list, base.Symbolic, pg_typing.CustomTyping):
   def _remove_item_without_permission_check(
       self, index: int) -> base.FieldUpdate:
     """Removes the item at `index` without permission and size checks."""
+    if index < 0:
+      # Address the removed item by its real position in the reported update.
+      index += len(self)
     old_value = self.sym_getattr(index)
     super().__delitem__(index)
     # Detach the removed value from the object tree.
